@@ -71,15 +71,15 @@ CLAIMED["C15"] = ("57 theorems: 16 on the CLOSED composition (Props/C15_closed.v
     "for every history the proxy holds exactly the LP-farm and staking-farm tokens its outstanding dual-yield tokens record, all fungible balances 0; partial redemption = floor of the proportional share, sum of parts never exceeds the whole; "
     "unstake output order and unbond amount; registered staking value is the staking side of the safe-price (TWAP) answer and the only price query. Tied to the real pair + farm-with-locked-rewards + farm-staking + proxy by differential replay.",
     "57 C15", "Coq inductive invariant + characterisation theorems relative to stated callee laws + correspondence")
-CLAIMED["C19"] = ("59 theorems: 27 on the behavioural on-behalf models (Props/C19_behalf.v: a call succeeds only for a hub-listed, non-blacklisted agent with every paid position recorded for the user; rewards incl. locked receipts go to the user only; failure leaves the state unchanged; no principal leaves through on-behalf endpoints) and 32 on the table: the access table (648 rows = every exported endpoint of the 16 contracts in Gen/Endpoints.v, regenerated from the source each run, plus on-behalf variants incl. mixed-owner multi-payment calls; 13,230 cells) proved exhaustively by vm_compute + forallb_forall: allowed => caller holds the demanded role / is a configured counterparty / authorised agent; "
+CLAIMED["C19"] = ("83 theorems: 24 on the permissions / pausable state machine over histories (Props/C19_perm.v: add = or, remove = and-not and never gains a bit, idempotence, holders = granted and not since revoked, a revoked keeper can neither pause nor resume); 27 on the behavioural on-behalf models (Props/C19_behalf.v: a call succeeds only for a hub-listed, non-blacklisted agent with every paid position recorded for the user; rewards incl. locked receipts go to the user only; failure leaves the state unchanged; no principal leaves through on-behalf endpoints) and 32 on the table: the access table (648 rows = every exported endpoint of the 16 contracts in Gen/Endpoints.v, regenerated from the source each run, plus on-behalf variants incl. mixed-owner multi-payment calls; 13,230 cells) proved exhaustively by vm_compute + forallb_forall: allowed => caller holds the demanded role / is a configured counterparty / authorised agent; "
     "fund-moving rows disallowed when inactive or paused (pair bootstrap exception), partial-active = liquidity only; inventory covered, #[only_owner] attributes agree; for all inputs: require_any_of rule, no escalation and powerless callers over every permissions/hub history, on-behalf rule = hub view, revocation/blacklist stick, rewards to the original owner; "
     "on Model.Pair / Model.Farm for all states and arguments: inactive => no user-funds operation. Tied by executing the complete endpoint x role x state matrix on the real contracts (state restored between cells) and comparing every verdict; failing calls must not change state.",
-    "59 C19", "Coq finite decision table proved exhaustively + for-all-input guard/state-machine theorems + full matrix correspondence")
-CLAIMED["C16"] = ("75 theorems: 23 on the CLOSED composition proxy_dex x pair x two locked farms x energy factory (Props/C16_closed.v: every closed step is a lawful ProxyDex step - the laws are discharged, not assumed - so backing / locked-stays-locked / mint-burn / energy theorems hold with no law hypothesis; cross-contract links: proxy LP = LP the pair model holds for it, proxy farm tokens = positions the farm models hold for it; pool and farm round trips conserve base+locked supply incl. the callee state) and 52 theorems on the proxy_dex model (pair, farms and energy factory are environment answers; the interface laws are boolean predicates evaluated where each answer is consumed, checked on every real answer, and each proved on the callee model - Model/Pair, Model/FarmLocked, Model/Energy/Penalty - with closed compositions C16_closed_*): "
+    "83 C19", "Coq finite decision table proved exhaustively + for-all-input guard/state-machine theorems + full matrix correspondence")
+CLAIMED["C16"] = ("86 theorems: 11 on the two-pair model (Props/C16_multi.v: backing per LP token id; wrapped-LP / wrapped-farm merges succeed only within one pair / one farm and fail across them with the state unchanged); 23 on the CLOSED composition proxy_dex x pair x two locked farms x energy factory (Props/C16_closed.v: every closed step is a lawful ProxyDex step - the laws are discharged, not assumed - so backing / locked-stays-locked / mint-burn / energy theorems hold with no law hypothesis; cross-contract links: proxy LP = LP the pair model holds for it, proxy farm tokens = positions the farm models hold for it; pool and farm round trips conserve base+locked supply incl. the callee state) and 52 theorems on the proxy_dex model (pair, farms and energy factory are environment answers; the interface laws are boolean predicates evaluated where each answer is consumed, checked on every real answer, and each proved on the callee model - Model/Pair, Model/FarmLocked, Model/Energy/Penalty - with closed compositions C16_closed_*): "
     "Backed invariant for every lawful history and all positions at once (LP held >= user-held wrapped LP; farm tokens per nonce >= outstanding wrapped-farm supply; locked tokens per nonce >= sum of floor shares + wrapped-farm supply); "
     "remove returns locked tokens of the recorded nonce = min(received, part), base asset only as pool surplus, burns base + locked = part; exit with/without penalty for both farming-token kinds; base asset never paid except that surplus; merge; "
     "base minted on entry = base + locked burned on exit; energy drops by exactly burned*(unlock - now) incl. expired locks; into_part = floor share, aborts on zero, parts never sum past the whole. "
-    "Tied to the real pair + two farm-with-locked-rewards + energy factory + proxy_dex by differential replay.", "75 C16",
+    "Tied to the real pair + two farm-with-locked-rewards + energy factory + proxy_dex by differential replay.", "86 C16",
     "Coq inductive invariant + characterisation theorems relative to stated callee laws + correspondence")
 CLAIMED["C11"] = ("66 theorems: 26 on the boosted-yields model (farm-boosted-yields on top of the generic weekly-rewards-splitting model; farm-level facts - emission, supply, user position, energy entry - are operation inputs read from the real farm): "
     "invariant with ghost ledger for every reachable state; per processed week the payment is exactly min(maxF*R*f/F, (R*cE*e/E + R*cF*f/F)/(cE+cF)) with floor divisions and cross-multiplied bounds against the rational formula, 0 below the minimums / with E, F or R = 0; "
